@@ -98,7 +98,7 @@ def run(ctx):
     ctx.coverage["distinct_nontrivial"] = len({tuple(c[:2]) for c in cases})
     ctx.coverage["rule"] = ("fixed menu of %d BUILD programs (plain, recursion, mutual recursion, self-recursive target, closure, defaults, "
                             "nested defs + lambda + comprehension, helper module, 2500-element and cyclic data, every predeclared value, "
-                            "target reference, function-keyed dict, two/three same-named closures and lambdas in progress, a helper shared through a list) plus seeded random call graphs of 2-7 helpers (self loops, mutual recursion, a helper in a global list, one as a default argument; every helper's body edited in turn, reachable or not), each loaded in its own process: base load, two re-loads of the identical "
+                            "target reference, function-keyed dict, two/three same-named closures and lambdas in progress, a helper shared through a list, 13 parameter shapes (positional, defaults, *args, keyword-only with/without defaults in every order, **kwargs) and 8 capture shapes (0-3 variables, never assigned, assigned later, shared by two closures)) plus seeded random call graphs of 2-7 helpers (self loops, mutual recursion, a helper in a global list, one as a default argument; every helper's body edited in turn, reachable or not), each loaded in its own process: base load, two re-loads of the identical "
                             "text (shuffled file creation order, GOMAXPROCS 1 and 4), then one load per edit of its menu (relevant edits must "
                             "change the fingerprint as diffEnv sees it, irrelevant ones must not); a case = (program, edit)" % len({c[0] for c in cases}))
     ctx.coverage["correspondence"]["distribution"] = {"programs": len({c[0] for c in cases}), "edits": len(cases), "graphs": len(graphs)}
